@@ -1976,6 +1976,33 @@ import (
 // worker that BackgroundWorker accepted has returned when ShutdownAndWait returns (bounded stress, the
 // interleaving is not forced).
 func TestVerifReplay(t *testing.T) {
+	// (0) Run returns only after every started worker has returned (workers of several orders, slow to return)
+	{
+		d := New()
+		var returnedWorkers atomic.Int32
+		for i, o := range []int{2, 0, 2, -3} {
+			_ = d.BackgroundWorker(fmt.Sprintf("r%d", i), func(ctx context.Context) {
+				<-ctx.Done()
+				time.Sleep(150 * time.Millisecond)
+				returnedWorkers.Add(1)
+			}, o)
+		}
+		runReturned := make(chan int32, 1)
+		go func() { d.Run(); runReturned <- returnedWorkers.Load() }()
+		for !d.IsRunning() {
+			time.Sleep(time.Millisecond)
+		}
+		time.Sleep(20 * time.Millisecond)
+		go d.ShutdownAndWait()
+		select {
+		case n := <-runReturned:
+			if n != 4 {
+				t.Fatalf("REPLAY-VIOLATION Run returned when %d of 4 started workers had returned", n)
+			}
+		case <-time.After(5 * time.Second):
+			t.Fatalf("REPLAY-VIOLATION Run did not return within 5s of the shutdown")
+		}
+	}
 	// (1) ordering with slow workers, ties, gaps, negative orders, and one worker that finished early
 	for round := 0; round < 20; round++ {
 		d := New()
